@@ -45,12 +45,14 @@ Definition extras_ids (c : cstate) (dg : list dig_entry) : list string :=
   filter (fun id => negb (digest_has dg id)) (keys (c_nodes c)).
 
 (* ApplyDigest *)
+Definition dig_step (acc : cstate * list event) (d : dig_entry) : cstate * list event :=
+  let '(c, ev) := acc in
+  if mem (d_id d) (c_nodes c) then (c, ev)
+  else if d_left d then (c, ev)
+  else (set_nodes c (insert (d_id d) (new_node (d_id d) (d_addr d)) (c_nodes c)), ev ++ [EJoin (d_id d)]).
+
 Definition apply_digest (c : cstate) (dg : list dig_entry) : cstate * list event :=
-  fold_left (fun '(c, ev) d =>
-               if mem (d_id d) (c_nodes c) then (c, ev)
-               else if d_left d then (c, ev)
-               else (set_nodes c (insert (d_id d) (new_node (d_id d) (d_addr d)) (c_nodes c)), ev ++ [EJoin (d_id d)]))
-            dg (c, []).
+  fold_left dig_step dg (c, []).
 
 Definition set_left (s : node_state) (exp : Z) : node_state :=
   {| n_id := n_id s; n_addr := n_addr s; n_ver := n_ver s; n_left := true; n_unreach := n_unreach s;
@@ -94,8 +96,11 @@ Definition apply_delta_entry (nows : amap Z) (c : cstate) (de : delta_entry) : c
   let '(st', ev) := apply_entries (now_of nows (de_id de)) (de_id de) st (de_ents de) in
   (set_nodes c (insert (de_id de) st' (c_nodes c)), evj ++ ev).
 
+Definition delta_step (nows : amap Z) (acc : cstate * list event) (de : delta_entry) : cstate * list event :=
+  let '(c, ev) := acc in let '(c', ev') := apply_delta_entry nows c de in (c', ev ++ ev').
+
 Definition apply_delta (nows : amap Z) (c : cstate) (dl : list delta_entry) : cstate * list event :=
-  fold_left (fun '(c, ev) de => let '(c', ev') := apply_delta_entry nows c de in (c', ev ++ ev')) dl (c, []).
+  fold_left (delta_step nows) dl (c, []).
 
 (* UpdateLiveness: [suspect id] says whether the detector's level for id exceeds the threshold *)
 Definition set_unreach (s : node_state) (u : bool) (exp : option Z) : node_state :=
